@@ -37,6 +37,12 @@ def run(repo, chk):
     resets = [norm(c) for c in ast.walk(ex.node) if isinstance(c, ast.Call) and isinstance(c.func, ast.Attribute) and c.func.attr == "reset"]
     chk.ob("R09.2", "overlay.proceed.__exit__:only-reset-site", len(resets) == 1 and holds and sites[0][3] in resets[0], ex.where,
            "the token is reset only when the activation is left (no suspend/resume hook exists on proceed or the interactor)")
+    from ..pairing import released_on_all_normal_paths
+    cv = sorted(ctxvars)[0]
+    ok_all, path, nrel = released_on_all_normal_paths(ex, f"ctxvar:{[c for c in ctxvars if 'current' in c][0] if any('current' in c for c in ctxvars) else cv}", ctxvars)
+    chk.ob("R09.2", "overlay.proceed.__exit__:reset-on-every-way-out", ok_all, ex.where,
+           "the token is reset on every path through __exit__, whatever ended the activation (return, exception, GeneratorExit on close/drop)"
+           + ("" if ok_all else f" -- a path leaves __exit__ without resetting: {' -> '.join(path or [])}"))
     other = [q for q, fi in repo.functions.items() if fi.cls in ("overlay.proceed", "interpret.Interactor") and fi.node.name in ("suspend", "resume", "pause", "restore", "on_yield", "on_resume")]
     chk.analysed["suspend_resume_hooks"] = other
 
